@@ -56,7 +56,7 @@ def _deref_chain(body, l, depth=0):
         rv = d[3]["rv"]
         if rv["k"] == "ref" and all(e[0] == "d" for e in rv["pl"]["p"]):
             l = rv["pl"]["l"]
-        elif rv["k"] == "use" and op_local(rv["o"]) is not None and not rv["o"]["pl"]["p"]:
+        elif rv["k"] in ("use", "cast") and op_local(rv["o"]) is not None and not rv["o"]["pl"]["p"]:
             l = op_local(rv["o"])
         else:
             return l
